@@ -1,5 +1,6 @@
 SPECIFICATION MCSpec
-CONSTANTS Role = TRUE
+CONSTANTS
+  ReadMax = 0 Role = TRUE
  PeerBudget = 3
  UserBudget = 3
  Faults = FALSE
